@@ -88,7 +88,7 @@ def validate_runs(events, shards=4):
 # generic check runner for the stream properties
 
 RELEVANT = {
-    "C01": {"minus", "plus", "zero", "raw"},
+    "C01": {"minus", "plus", "zero", "raw", "subshort"},
     "C04": {"raw", "rawopt", "commit", "styled"},
     "C14": {"fileHdr", "hunkHdr", "mergeHdr"},
 }
